@@ -102,16 +102,23 @@ structure Item where
   grpc : Bool           -- the protocol variant the item carries
   deriving Repr
 
+/-- registerRequest / registerResponse of the matcher: one open message per stream id; the
+    counterpart completes the pair; a second message of the *same* kind under the same key
+    removes the first and is itself dropped (LoadAndDelete, then `return nil`) -/
+def register (acc : List Item × List Msg) (m : Msg) : List Item × List Msg :=
+  match acc.2.find? (·.sid == m.sid) with
+  | some o =>
+    let rest := acc.2.filter (·.sid != m.sid)
+    if o.isRequest == m.isRequest then (acc.1, rest)
+    else if m.isRequest then (acc.1 ++ [{ request := m, response := o, grpc := m.isGrpc || o.isGrpc }], rest)
+    else (acc.1 ++ [{ request := o, response := m, grpc := m.isGrpc || o.isGrpc }], rest)
+  | none => (acc.1, acc.2 ++ [m])
+
 /-- both halves through the matcher (client half first): pairing by stream id; the item is
     gRPC when either message of the pair carries a gRPC marker -/
 def pair (reqs resps : List Msg) : List Item × Nat × Nat :=
-  let go := fun (acc : List Item × List Msg) (r : Msg) =>
-    match acc.2.find? (·.sid == r.sid) with
-    | some q => (acc.1 ++ [{ request := q, response := r, grpc := r.isGrpc || q.isGrpc }], acc.2.filter (·.sid != r.sid))
-    | none => acc
-  let (items, leftReq) := resps.foldl go ([], reqs)
-  let unmatchedResp := (resps.filter fun r => !(reqs.any (·.sid == r.sid))).length
-  (items, leftReq.length, unmatchedResp)
+  let r := (reqs ++ resps).foldl register ([], [])
+  (r.1, (r.2.filter (·.isRequest)).length, (r.2.filter (!·.isRequest)).length)
 
 def canonHeaders (hs : List (Bytes × Bytes)) : Sx :=
   let kept := hs.map fun h => (canonicalName h.1, h.2)
